@@ -528,24 +528,36 @@ func initializeAliasToIndexMap() error {
 				return err
 			}
 			for _, f := range files {
-				var sb strings.Builder
-				sb.WriteString(VTableAliasesDir)
-				fname := f.Name()
-
-				if strings.HasSuffix(fname, ".json") {
-					indexName := strings.TrimSuffix(fname, ".json")
-					aliasNames, err := GetAliases(indexName, orgIdNumber)
-					if err != nil {
-						log.Errorf("initializeAliasToIndexMap: For indexName=%v, Failed to getAllAliasInIndexFile fname=%v, err=%v", indexName, fname, err)
-						return err
-					}
-
-					for aliasName := range aliasNames {
-						putAliasToIndexInMem(aliasName, indexName, orgIdNumber)
-					}
+				err = loadAliasesOfIndexFile(f.Name(), orgIdNumber)
+				if err != nil {
+					return err
 				}
 			}
+		} else {
+			// the alias files of org 0 are not in a sub-directory (see writeAliasFile)
+			err = loadAliasesOfIndexFile(dir.Name(), 0)
+			if err != nil {
+				return err
+			}
 		}
+	}
+	return nil
+}
+
+// fname is <indexName>.json, the file that holds the aliases of the index
+func loadAliasesOfIndexFile(fname string, orgid int64) error {
+	if !strings.HasSuffix(fname, ".json") {
+		return nil
+	}
+	indexName := strings.TrimSuffix(fname, ".json")
+	aliasNames, err := GetAliases(indexName, orgid)
+	if err != nil {
+		log.Errorf("initializeAliasToIndexMap: For indexName=%v, Failed to getAllAliasInIndexFile fname=%v, err=%v", indexName, fname, err)
+		return err
+	}
+
+	for aliasName := range aliasNames {
+		putAliasToIndexInMem(aliasName, indexName, orgid)
 	}
 	return nil
 }
@@ -574,10 +586,20 @@ func putAliasToIndexInMem(aliasName string, indexName string, orgid int64) {
 func FlushAliasMapToFile() error {
 	log.Warnf("FlushAliasMapToFile: Flushing alias map to file on exit")
 	for orgid := range aliasToIndexNames {
+		// the files are per index (<indexName>.json holds the aliases of the index), the map is per alias
+		indexToAliases := make(map[string]map[string]bool)
 		for alias, indexNames := range aliasToIndexNames[orgid] {
-			err := writeAliasFile(&alias, indexNames, orgid)
+			for indexName := range indexNames {
+				if _, ok := indexToAliases[indexName]; !ok {
+					indexToAliases[indexName] = make(map[string]bool)
+				}
+				indexToAliases[indexName][alias] = true
+			}
+		}
+		for indexName, aliases := range indexToAliases {
+			err := writeAliasFile(&indexName, aliases, orgid)
 			if err != nil {
-				log.Errorf("FlushAliasMapToFile: Failed to save alias map! alias=%v, Error= %+v", alias, err)
+				log.Errorf("FlushAliasMapToFile: Failed to save alias map! indexName=%v, Error= %+v", indexName, err)
 			}
 		}
 	}
